@@ -84,6 +84,18 @@ class Run(object):
             from .loader import AnalysisError
             raise AnalysisError("canary %s: fired=%s expected=%s (checker vacuous or over-eager)" % (name, fired, expected))
 
+    def unknown_violations(self):
+        """violations that are not recorded known findings (same matching as finish(), without changing anything)"""
+        kf = [k for k in self.known.get("findings", []) if k.get("property") == self.prop]
+        out = []
+        for i in self.instances:
+            if i.verdict != "violation":
+                continue
+            if any(k.get("rule") == i.rule and k.get("construct") == i.construct for k in kf):
+                continue
+            out.append(i)
+        return out
+
     # -- finishing --------------------------------------------------------
     def finish(self, write=True):
         from .loader import AnalysisError
